@@ -5,6 +5,18 @@ HERE = os.path.dirname(os.path.abspath(__file__))
 # id -> (built?, level, technique, level text, level note, design ref)
 RACE = "Go race detector (-race build, GORACE log parsed, reports de-duplicated)"
 T = {
+ "C06": (True, "exploration", "reference-model monitor: generated consumes-list shapes x Content-Type spellings x body signalling x methods through both binding entry points (untyped RoutesHandler pipeline and Context.BindValidRequest), judged by an independent RFC 7231 media-type classifier and an admission function written from the statement; tagged consumers identify who decoded",
+         "Seeded exploration (30k requests x 2 entry points per quick run, 1M x 2 per thorough run incl. ~20k over loopback TCP with real Content-Length/chunked framing): admitted <=> exactly the registered consumer ran once and the handler ran; otherwise 415 (400 unparsable) and nothing ran; body-less requests are not gated; the two entry points agree. No exhaustiveness over the header grammar.",
+         "grey-zone headers (valid type/subtype with irregular parameters, lone token, empty value) are judged for safety and entry-point agreement only; status when no consumer is registered API-wide for an admitted type is not judged; upper-case consumes entries are outside the quantifier", "DESIGN.md §4 C06"),
+ "C10": (True, "exploration", "differential monitor: client.New(...).CreateHttpRequest vs an independent URL builder written from the statement, over seeded base paths x patterns x hostile value maps x caller query sets x scheme lists; each case built 6-8 times with permuted SetPathParam/SetQueryParam call orders (Go map order varies per build)",
+         "Seeded exploration (quick 600k builds, thorough 51M): escaped-path segment list equals base+pattern with placeholders replaced; each segment percent-decodes to its value; no added separator, query or fragment; no resubstitution of placeholder-like values; trailing slash kept; identical URL across call orders; query precedence caller > pattern > base path; https chosen whenever offered among several schemes; URL.String() re-parses to the same parts. Held on what was run.",
+         "trusts the ~150-line reference builder and its own percent-decoder; static template text restricted to [A-Za-z0-9._~-]; unset placeholders, '.'/'..' static segments and the default scheme when none is offered are not judged", "DESIGN.md §4 C10"),
+ "C13": (True, "exploration", "tagged-consumer/tagged-transport monitor for sequential calls plus Go race detector + correlation tokens under a verifhook scheduler for N concurrent Submit calls on a fresh Runtime (colliding client-initialising calls), GOMAXPROCS 1/4/16",
+         "Seeded exploration: (a) ~10k (quick) / ~0.9M (thorough) sequential calls over response Content-Type spellings x consumer registries x status/header/body sets x operation-vs-transport client and context: the reader is handed exactly the registered (else catch-all) consumer or the call fails naming the content type, and sees status/headers/body unchanged; (b) 172 (quick) / ~10k (thorough) concurrent runs under -race with a hook callback perturbing the schedule at the four cl.submit.* points: every caller receives the response to its own request and the race log is empty. Schedules are sampled, not enumerated.",
+         "the hook callback is lock-free so it adds no happens-before edges that could mask races; race reports come from the driver's race-log parser; malformed Content-Type may fail or use the catch-all consumer; over loopback 304/599 are excluded (net/http rewrites them)", "DESIGN.md §4 C13"),
+ "C14": (True, "exploration", "end-to-end round-trip monitor: credentials written by client.BasicAuth/APIKeyAuth/BearerToken/Compose (default vs per-operation vs preset header) through CreateHttpRequest, serialised with Request.Write and re-parsed with http.ReadRequest (thorough: also Runtime.Submit to a loopback server), then handed to every security.BasicAuth*/APIKeyAuth*/BearerAuth* variant with recording callbacks",
+         "Seeded exploration (quick 80k requests / 330k authenticator probes; thorough 4.0M wire + 160k TCP requests): the callback receives exactly the written user/password/token and the required scopes; applicable iff such a credential is carried; returned principal and error are the callback's; bearer precedence header > query > form over all 24 placement subsets with pairwise distinct tokens and foreign Authorization schemes; default authentication applied iff the operation has no AuthInfo and no Authorization header is preset. Held on what was run.",
+         "header-carried tokens exclude leading/trailing whitespace and control bytes (HTTP trimming, net/http refusal); empty tokens not generated; form-body tokens only with POST/PUT/PATCH; trusts net/http's own wire parsing as 'the wire'", "DESIGN.md §4 C14"),
  "C12": (True, "fault_enumeration", "fault-placement enumeration around Submit with scripted upload sources / RoundTripper / raw TCP fault server / hook-driven cancellation; monitors = close counters, unread-byte counters, goroutine census, watchdog-ordered termination; -race build",
          "Enumerates fault placements (pre-send errors, read error at every byte offset of upload sources, transport errors before/mid/after the request body, a raw loopback server closing/resetting/stalling at every byte of a Content-Length and a chunked response under four deadline sources, cancellation at each hook point, every short Read-size sequence on the connection-reuse wrapper) crossed with payload kinds and connection reuse, and checks per placement: Submit returned while the fault was held, returned an error unless the complete response was obtained, every upload source and the response body were closed (drained when required), no goroutine with client frames remains. The enumeration is complete for the listed dimensions at the stated sizes, not for all lengths/timings.",
          "trusts the scripted collaborators, runtime.Stack for the census, and treats 200x the effective deadline without return as non-termination; a complete response lost to the (short) deadline on a loaded machine is counted inconclusive, never a violation", "DESIGN.md §4 C12"),
